@@ -49,22 +49,66 @@ def immutable_binding(x):
     return False
 
 
+READ_ONLY_METHODS = {"get", "keys", "values", "items", "index", "count", "copy", "startswith", "endswith", "find", "join", "format",
+                     "hex", "decode", "encode", "split", "rsplit", "strip", "lower", "upper"}
+
+
+def used_only_for_reading(scope, name, via=None):
+    """True if every occurrence of `name` (or `<via>.name`, e.g. self.X / Class.X) inside `scope` merely reads the object:
+    subscript load, membership test, iteration, len(), a call of a non-mutating method.  Any other occurrence (a store, a
+    mutator, an alias, an argument, a return) may change or leak it and counts as a use of shared state."""
+    parents = {}
+    for n in ast.walk(scope):
+        for c in ast.iter_child_nodes(n):
+            parents[id(c)] = n
+
+    def is_ref(n):
+        if via is None:
+            return isinstance(n, ast.Name) and n.id == name
+        return isinstance(n, ast.Attribute) and n.attr == name and isinstance(n.value, ast.Name) and n.value.id in via
+
+    for n in ast.walk(scope):
+        if not is_ref(n):
+            continue
+        if not isinstance(n.ctx, ast.Load):
+            return False
+        p = parents.get(id(n))
+        if isinstance(p, ast.Subscript) and p.value is n and isinstance(p.ctx, ast.Load):
+            continue
+        if isinstance(p, ast.Compare) and n in p.comparators and all(isinstance(o, (ast.In, ast.NotIn)) for o in p.ops):
+            continue
+        if isinstance(p, (ast.For, ast.comprehension)) and p.iter is n:
+            continue
+        if isinstance(p, ast.Call) and isinstance(p.func, ast.Name) and p.func.id == "len" and p.args == [n]:
+            continue
+        if isinstance(p, ast.Attribute) and p.value is n and p.attr in READ_ONLY_METHODS and isinstance(parents.get(id(p)), ast.Call) \
+                and parents[id(p)].func is p:
+            continue
+        return False
+    return True
+
+
 def scan():
     from pyvc import extract
     out = []
     for mod in CODE_MODULES:
         tree, _ = extract.module_ast(mod)
-        # module level: imports, docstring, constants, defs - no mutable containers
+        # module level: imports, docstring, constants, defs; a name bound to anything else is shared state unless the code only
+        # ever reads the object (or never touches it, like __all__)
         bad_top = []
         for st in tree.body:
             if isinstance(st, (ast.Import, ast.ImportFrom, ast.FunctionDef, ast.ClassDef)):
                 continue
             if isinstance(st, ast.Expr) and isinstance(st.value, ast.Constant):
                 continue
-            if isinstance(st, ast.Assign) and (isinstance(st.value, ast.Constant) or (
-                    isinstance(st.value, ast.Tuple) and all(isinstance(e, ast.Constant) for e in st.value.elts))):
+            if immutable_binding(st):
                 continue  # immutable constants
-            bad_top.append(f"line {st.lineno}: {type(st).__name__}")
+            names = [t.id for t in (st.targets if isinstance(st, ast.Assign) else [st.target] if isinstance(st, ast.AnnAssign) else [])
+                     if isinstance(t, ast.Name)]
+            fbodies = ast.Module(body=[x for x in tree.body if isinstance(x, (ast.FunctionDef, ast.ClassDef))], type_ignores=[])
+            if names and isinstance(st, (ast.Assign, ast.AnnAssign)) and all(used_only_for_reading(fbodies, nm) for nm in names):
+                continue
+            bad_top.append(f"line {st.lineno}: {ast.unparse(st)[:60]}")
         out.append((f"frame.module_has_no_mutable_state[{mod}]", not bad_top, {"statements": bad_top}))
         funcs = []
         for n in tree.body:
@@ -73,8 +117,17 @@ def scan():
             elif isinstance(n, ast.ClassDef):
                 # class-level names bound to immutable literals are constants, not state; anything else (a list, dict, set, bytearray,
                 # a call) is shared by every instance, and an in-place update through self.<name> would leak from one object into the next
-                cls_bad = [f"line {x.lineno}: {ast.unparse(x)[:60]}" for x in n.body
-                           if not isinstance(x, (ast.FunctionDef, ast.Expr, ast.Pass)) and not immutable_binding(x)]
+                cls_bad = []
+                for x in n.body:
+                    if isinstance(x, (ast.FunctionDef, ast.Expr, ast.Pass)) or immutable_binding(x):
+                        continue
+                    names = [t.id for t in (x.targets if isinstance(x, ast.Assign) else [x.target] if isinstance(x, ast.AnnAssign) else [])
+                             if isinstance(t, ast.Name)]
+                    if names and all(used_only_for_reading(tree, nm, via={"self", "cls", n.name})
+                                     and used_only_for_reading(ast.Module(body=[f for f in n.body if isinstance(f, ast.FunctionDef)], type_ignores=[]), nm)
+                                     for nm in names):
+                        continue  # never written through self / the class, never aliased: a constant
+                    cls_bad.append(f"line {x.lineno}: {ast.unparse(x)[:60]}")
                 out.append((f"frame.class_has_no_class_level_state[{mod}.{n.name}]", not cls_bad, {"statements": cls_bad}))
                 funcs += [(n.name, x) for x in n.body if isinstance(x, ast.FunctionDef)]
         for cls, fn in funcs:
@@ -87,9 +140,14 @@ def scan():
                     locals_.add(n.id)
                 if isinstance(n, ast.ExceptHandler) and n.name:
                     locals_.add(n.name)
-            for d in fn.args.defaults + [d for d in fn.args.kw_defaults if d is not None]:
-                if not isinstance(d, (ast.Constant, ast.Name)) and not (isinstance(d, ast.UnaryOp) and isinstance(d.operand, ast.Constant)):
-                    bad.append(f"line {d.lineno}: mutable default argument")
+            pos = fn.args.posonlyargs + fn.args.args
+            with_defaults = list(zip(pos[len(pos) - len(fn.args.defaults):], fn.args.defaults)) + \
+                [(a, d) for a, d in zip(fn.args.kwonlyargs, fn.args.kw_defaults) if d is not None]
+            for a, d in with_defaults:
+                if isinstance(d, (ast.Constant, ast.Name)) or immutable_literal(d):
+                    continue
+                if not used_only_for_reading(ast.Module(body=fn.body, type_ignores=[]), a.arg):
+                    bad.append(f"line {d.lineno}: mutable default argument {a.arg}={ast.unparse(d)[:30]} (one object shared by every call)")
             for n in ast.walk(fn):
                 if isinstance(n, (ast.Global, ast.Nonlocal)):
                     bad.append(f"line {n.lineno}: {type(n).__name__.lower()}")
@@ -180,6 +238,9 @@ def replay(o, seed):
     r = try_candidates("history_independence", history_candidates(seed, 80), key=lambda i, r: "history")
     if r.get("reproduced"):
         return r
+    if o["name"].startswith("frame."):
+        from props.replays import frame_replay
+        return frame_replay(o, seed)
     if "socketwrapper" in o["name"]:
         from props.C11 import sock_candidates
         cands = ({"streams": [[d.hex(), [x for x in sc if isinstance(x, int)], bs] for d, sc, bs in list(sock_candidates(seed + j))[:3]]}
